@@ -44,6 +44,10 @@ type healCase struct {
 	Masters   int   `json:"masters"`
 	Replicas  int   `json:"replicas"`
 	Strategy  int   `json:"read_strategy,omitempty"` // 0 MASTER, 1 REPLICA, 2 BOTH
+	// NoPeriodic: the periodic slot refresh runs at its production rate (2 min: never during a case), so a layout change can only
+	// be learnt through refreshes that a redirection triggers - what the statement promises. Fail-overs (the dead master cannot
+	// redirect anybody) are skipped in these cases.
+	NoPeriodic bool `json:"no_periodic_refresh,omitempty"`
 	StartDown []int `json:"start_down"`
 	Ops       []hop `json:"ops"`
 }
@@ -110,6 +114,18 @@ func (h *harness) probe(m int, where string) *verdict {
 	return nil
 }
 
+// quietReads reads the keys round robin, n reads in all, and reports whether none of them was redirected.
+func (h *harness) quietReads(keys []string, n int) (bool, *verdict) {
+	m0, a0 := h.w.Redirects()
+	for i := 0; i < n; i++ {
+		if _, v := h.do("GET", keys[i%len(keys)]); v != nil {
+			return false, v
+		}
+	}
+	m1, a1 := h.w.Redirects()
+	return m1 == m0 && a1 == a0, nil
+}
+
 func (h *harness) probeAll(where string) *verdict {
 	for _, m := range h.w.Masters() {
 		if v := h.probe(m, where); v != nil {
@@ -166,6 +182,10 @@ func checkHeal(c healCase) (inf healInfo, v *verdict) {
 			w.Nodes[d].Stop()
 			h.down[d] = true
 		}
+	}
+	if c.NoPeriodic {
+		of, om := sim.SetRefreshTimers(2*time.Minute, 5*time.Millisecond) // read when the refresh loop arms them: before the proxy starts
+		defer sim.SetRefreshTimers(of, om)
 	}
 	px, err := sim.StartProxy(sim.ProxyOpts{Seeds: w.AllAddrs(), ConnectTimeout: connectTimeout, ReadStrategy: redispb.ReadStrategy(c.Strategy)})
 	if err != nil {
@@ -321,7 +341,7 @@ func checkHeal(c healCase) (inf healInfo, v *verdict) {
 			}
 			time.Sleep(allowance)
 		case "failover":
-			if len(h.down) > 0 || len(w.Replicas(node)) == 0 {
+			if len(h.down) > 0 || len(w.Replicas(node)) == 0 || c.NoPeriodic {
 				continue
 			}
 			nm := w.Failover(node)
@@ -391,9 +411,20 @@ func checkHeal(c healCase) (inf healInfo, v *verdict) {
 			}
 			deadline := time.Now().Add(10 * time.Second)
 			for px.Counter("upstream.slots_refresh.success_total") < s0+2 {
+				if c.NoPeriodic {
+					// only a redirection triggers a refresh, and once routing has converged nothing is redirected any more:
+					// 40 reads in a row without a redirection end the wait (under MASTER nothing is ever redirected here)
+					quiet, v := h.quietReads([]string{kOld, kNew}, 40)
+					if v != nil {
+						return inf, v
+					}
+					if quiet {
+						break
+					}
+				}
 				if time.Now().After(deadline) {
-					return inf, &verdict{"routing-never-converges", fmt.Sprintf("%s: replica %d was re-pointed from master %d to master %d, but no slot refresh succeeded within 10s (success_total %d -> %d)",
-						where, r, cur, nm, s0, px.Counter("upstream.slots_refresh.success_total"))}
+					return inf, &verdict{"routing-never-converges", fmt.Sprintf("%s: replica %d was re-pointed from master %d to master %d and reads keep being redirected, but routing did not converge within 10s (slot refreshes succeeded: %d -> %d; periodic refresh off: %v)",
+						where, r, cur, nm, s0, px.Counter("upstream.slots_refresh.success_total"), c.NoPeriodic)}
 				}
 				if _, v := h.do("GET", kOld); v != nil { // a read that lands on the former replica is redirected, which triggers a refresh
 					return inf, v
@@ -490,6 +521,15 @@ func checkHeal(c healCase) (inf healInfo, v *verdict) {
 			// bounded convergence: two successful refreshes after the change (the first may have started before it)
 			deadline := time.Now().Add(10 * time.Second)
 			for px.Counter("upstream.slots_refresh.success_total") < s0+2 && len(keys) > 0 {
+				if c.NoPeriodic && px.Counter("upstream.slots_refresh.success_total") > s0 {
+					quiet, v := h.quietReads(keys, len(keys))
+					if v != nil {
+						return inf, v
+					}
+					if quiet {
+						break
+					}
+				}
 				if time.Now().After(deadline) {
 					return inf, &verdict{"routing-never-converges", fmt.Sprintf("%s: %d slots changed owner and requests were redirected, but no slot refresh succeeded within 10s (success_total %d -> %d, failure_total %d)",
 						where, len(changed), s0, px.Counter("upstream.slots_refresh.success_total"), px.Counter("upstream.slots_refresh.failure_total"))}
@@ -603,7 +643,7 @@ func keysForSlots(slots []int, n int) []string {
 
 func genHeal(t *rapid.T) healCase {
 	c := healCase{Masters: rapid.IntRange(2, 4).Draw(t, "masters"), Replicas: rapid.IntRange(0, 2).Draw(t, "replicas"), ByName: rapid.IntRange(0, 2).Draw(t, "byname") == 0,
-		Strategy: rapid.SampledFrom([]int{0, 0, 1, 2}).Draw(t, "strategy")}
+		Strategy: rapid.SampledFrom([]int{0, 0, 1, 2}).Draw(t, "strategy"), NoPeriodic: rapid.IntRange(0, 2).Draw(t, "noperiodic") == 0}
 	if rapid.IntRange(0, 4).Draw(t, "startdown") == 0 {
 		c.StartDown = []int{rapid.IntRange(0, c.Masters-1).Draw(t, "sd")}
 	}
@@ -663,6 +703,9 @@ func TestHeal(t *testing.T) {
 		}
 		if c.Strategy > 0 {
 			vh.Rec().Class("heal", "read_strategy_replica_or_both")
+		}
+		if c.NoPeriodic {
+			vh.Rec().Class("heal", "no_periodic_refresh:only_redirection-triggered_refreshes")
 		}
 		if inf.dropsDuringPendingConnect > 0 {
 			vh.Rec().Class("heal", "connections_lost_while_a_connect_was_pending")
